@@ -9,7 +9,9 @@ rng = default_rng()
 class Conditional:
     def __init__(self, posterior: callable, theta: ndarray, variable_index: int):
         self.posterior = posterior
-        self.theta = theta
+        # keep a floating-point copy: a conditioning point given as an integer array
+        # would otherwise truncate every value assigned to it
+        self.theta = array(theta, dtype=float)
         self.variable_index = variable_index
 
     def __call__(self, x: ndarray):
